@@ -357,7 +357,7 @@ def run_cases(tag: str, imports, prelude: str, cases: list[Case], workdir: str, 
         lines.append("def main : IO Unit := do")
         for k, c in enumerate(ch):
             lines.append(f"  IO.println (case{k} ())")
-        path = os.path.join(workdir, f"Diff_{tag}_{ci}.lean")
+        path = os.path.join(workdir, f"Diff_{tag}_{os.getpid()}_{ci}.lean")  # several checks may run at the same time in one work area
         open(path, "w").write("\n".join(lines) + "\n")
         paths.append(path)
     from concurrent.futures import ThreadPoolExecutor
@@ -369,6 +369,11 @@ def run_cases(tag: str, imports, prelude: str, cases: list[Case], workdir: str, 
         if p.returncode != 0 or len(outl) != len(ch):
             raise RuntimeError(f"lean --run failed for {path} (exit {p.returncode}, {len(outl)}/{len(ch)} lines):\n{p.stderr[:4000]}\n{p.stdout[-2000:]}")
         lean_results += [json.loads(l) for l in outl]
+    for pth in paths:
+        try:
+            os.remove(pth)
+        except OSError:
+            pass
     mism = []
     per_fn: dict[str, int] = {}
     for c, a, b in zip(cases, py_results, lean_results):
